@@ -133,3 +133,28 @@ Theorem C13_schedule_example :
   = [OOk; OOk; ONotFound; OBool true; OVal (VS sb); OBool false].
 Proof. exact demo_schedule_log. Qed.
 Print Assumptions C13_schedule_example.
+
+(* CleanupExpired (explicit call or the StartCleanup ticker) is one critical section of the model: the whole purge
+   happens in the caller's single step ... *)
+Theorem C13_cleanup_is_one_section :
+  forall D V rest seen sh,
+  tstep D V {| lo_prog := KCleanup :: rest; lo_pending := None; lo_seen := seen |} sh =
+  ({| lo_prog := rest; lo_pending := None; lo_seen := seen ++ [(KCleanup, OOk)] |},
+   {| sh_m := purge (sh_now sh) (sh_m sh); sh_now := sh_now sh; sh_log := sh_log sh ++ [(KCleanup, OOk)] |}).
+Proof. exact cleanup_is_one_section. Qed.
+Print Assumptions C13_cleanup_is_one_section.
+
+(* ... and that is necessary: a CleanupExpired that scans in one section and deletes in a later one without
+   re-checking loses a concurrent Set(k,b,0) — the resulting log has no linearization (replayed on the real code by
+   the harness' sweep scenario: a write issued while the sweep holds the mutex must survive) *)
+Theorem C13_two_phase_cleanup_refuted :
+  ~ legal DAY 1000
+      (sh_log (fst (run shared local2 (tstep_two_phase_cleanup DAY repaired) (init2 1000 sweep_progs) sweep_sched))).
+Proof. exact two_phase_cleanup_refuted. Qed.
+Print Assumptions C13_two_phase_cleanup_refuted.
+
+Theorem C13_one_section_cleanup_same_schedule :
+  map snd (sh_log (fst (run shared local (tstep DAY repaired) (init 1000 sweep_progs) sweep_sched)))
+  = [OOk; OOk; OOk; OOk; OVal (VS sb)].
+Proof. exact one_section_cleanup_same_schedule. Qed.
+Print Assumptions C13_one_section_cleanup_same_schedule.
